@@ -21,11 +21,11 @@ CHECKS = [
  dict(id="C15", engine="ks", level="exploration", design="§4.2, §5 C15",
       technique="deterministic simulation: 2-16 client tasks on one shared JwkMemStore/KeyIdMemstore under a seeded executor (tape picks the next task and every hook yield), per-object linearizability check of the recorded history against a sequential map model plus direct cryptographic clauses",
       text="Seeded search over client scripts and interleavings at the lock-acquisition and critical-section hook points of the real in-memory stores (real tokio RwLock); oracle: linearizability per key id / per method digest against the sequential contract, exactly one winner among racing insert_key_id calls, signatures verify under the stored key and under no other stored key, generate output public-only with kid = RFC 7638 thumbprint and requested alg, fresh key ids, invalid inserts refused, no deadlock/lost wake-up.",
-      note="Interleavings are explored at await points (hooks + lock waits) on a single-threaded executor; preemption between non-awaiting statements is outside this tier. OS randomness is replaced through the cfg hooks. Stronghold is not simulated."),
+      note="Interleavings are explored at await points (hooks + lock waits) on a single-threaded executor; preemption between non-awaiting statements is covered only by the thorough tier's Miri runs (real OS threads on the un-hooked stores under Miri's seeded scheduler, 4 thread counts x 16 seeds). OS randomness is replaced through the cfg hooks. StrongholdStorage is exercised sequentially only (2 000 seeded histories on the real store in the thorough tier); its internals are outside the simulator."),
  dict(id="C09", engine="stor", level="fault_enumeration", design="§4.1, §5 C09",
       technique="deterministic simulation with fault injection at the JwkStorage/KeyIdStorage seams: per storage-backed call a tape-drawn fault mask over storage-call occurrences, seeded yields deciding the completion order of the joined deletes, optional concurrent bystander; before/after snapshots of document and both stores against a reference model",
       text="Seeded search over document histories x fault masks (every subset of the <=4 storage calls of generate_method / purge_method failing cleanly) x join orders x document type x target kind (embedded / general-purpose with 0,1,>=2 references / dangling-only / absent); after every call: Ok => method resolves in scope, key id recorded, key exists, signing verifies, nothing else changed; Err => document (order-insensitive) and both stores equal the pre-state; UndoOperationFailed licenses exactly the named stray. The realised (op, doc type, target, refs, call/fault vector, join order, outcome) cells are counted in the evidence.",
-      note="Failures injected are clean failures as the storage traits require (error returned, store not altered). Dirty failures, allocation failure and Stronghold are not simulated. Collections are compared order-insensitively."),
+      note="Failures injected are clean failures as the storage traits require (error returned, store not altered). Dirty failures, allocation failure and Stronghold are not simulated. After an error the document must equal its pre-state exactly (order included); after success the set of entries is compared."),
  dict(id="C04", engine="stor", level="exploration", design="§4.1, §5 C04",
       technique="deterministic simulation: seeded document mutation histories in which storage-backed generate/purge run under injected storage faults and seeded schedules, checked step by step against a set-of-entries reference model (state, outcome, invariants, JSON/state-metadata round trip, every resolution query)",
       text="Seeded histories of <=12 operations over 2-5 fragments x 2 DIDs from empty, built and deserialised start documents (incl. dangling own/foreign references, foreign-DID embedded methods, shared fragments); after every step: id-uniqueness invariants recomputed from the entries, refused operations leave the document unchanged, to_json/from_json (and pack/unpack for IotaDocument) round trip, resolve_method / resolve_service / methods for every id and fragment with and without every scope agree with the model. Only generate_method/purge_method can meet faults; the plain mutators run as fault-free model conformance.",
